@@ -53,7 +53,14 @@ def _watched(mod, case, limit):
     signal.signal(signal.SIGPROF, _on_alarm)
     signal.setitimer(signal.ITIMER_PROF, limit)  # CPU seconds (user + system, so that a page-faulting runaway allocation counts) of this process: immune to machine load
     try:
-        return mod.run_case(case)
+        try:
+            return mod.run_case(case)
+        except (SystemExit, KeyboardInterrupt, GeneratorExit) as exc:
+            # the library (not the harness: nothing here raises these) tried to end the interpreter or broke out of
+            # the handlers every property has for ordinary exceptions: reported like any other exception it raises
+            from hxv.lib import Result, raises
+
+            return Result([raises(exc, "")], False, [])
     except (MemoryError, CaseTimeout) as exc:
         # a runaway loop/allocation inside the library that surfaced outside the property's own handlers
         import gc
